@@ -702,6 +702,16 @@ class Node:
         limit = app.affinity.limits[self.level]
         return count < limit
 
+    def check_app_parents_affinity_limit(self, app):
+        """Check app affinity limits on every level above this node.
+        """
+        node = self.parent
+        while node is not None:
+            if not node.check_app_affinity_limit(app):
+                return False
+            node = node.parent
+        return True
+
     def put(self, _app):
         """Abstract method, should never be called.
         """
@@ -1695,7 +1705,8 @@ class Cell(Bucket):
 
                 evicted_from, app_expiry = evicted[app]
                 del evicted[app]
-                if evicted_from.restore(app, app_expiry):
+                if (evicted_from.check_app_parents_affinity_limit(app) and
+                        evicted_from.restore(app, app_expiry)):
                     app.evicted = False
                     continue
 
@@ -1736,9 +1747,10 @@ class Cell(Bucket):
                                             evicted_app.placement_expiry)
                     evicted_app_server.remove(evicted_app.name)
 
-                    # TODO: we need to check affinity limit constraints on
-                    #       each level, all the way to the top.
-                    if evicted_app_server.put(app):
+                    # Server put checks affinity limit on the server only,
+                    # check each level above, all the way to the top.
+                    if (evicted_app_server.check_app_parents_affinity_limit(
+                            app) and evicted_app_server.put(app)):
                         break
 
             # Placement failed.
